@@ -87,6 +87,7 @@ func (cdb *CachedDatabase) CleanupExpiredCache() map[string]int {
 func (cdb *CachedDatabase) UpdateDatabase(commands []Command) {
 	cdb.Database.Commands = commands
 	cdb.Database.BuildUniversalIndex() // Rebuild universal index
+	cdb.Database.buildTFIDFSearcher()  // and the NLP re-ranker, which indexes the same commands
 	cdb.InvalidateCache()              // Invalidate cache when database is updated
 }
 
